@@ -563,6 +563,33 @@ def _norm_block(block, fn, in_loop):
                     unrolled.append(_Subst({st.target.id: e}, {}).visit(copy.deepcopy(b_)))
             block[i:i + 1] = unrolled
             continue
+        # N15 a loop over a literal tuple of names used only as `getattr(X, v)`: `for v in ('a', 'b'): getattr(X, v)(…)` ->
+        #     `X.a(…)` ; `X.b(…)`
+        if isinstance(st, ast.For) and not st.orelse and isinstance(st.target, ast.Name) and isinstance(st.iter, (ast.Tuple, ast.List)) \
+                and 1 <= len(st.iter.elts) <= 5 and all(isinstance(e, ast.Constant) and isinstance(e.value, str) and e.value.isidentifier() for e in st.iter.elts) \
+                and _stores(ast.Module(body=st.body, type_ignores=[]), st.target.id) == 0 and not _own_level(st.body, (ast.Continue, ast.Break)) \
+                and _loads(fn, st.target.id) == _loads(ast.Module(body=st.body, type_ignores=[]), st.target.id):
+            v_ = st.target.id
+            uses = [m for b_ in st.body for m in ast.walk(b_) if isinstance(m, ast.Name) and m.id == v_]
+            gets = [m for b_ in st.body for m in ast.walk(b_) if isinstance(m, ast.Call) and isinstance(m.func, ast.Name) and m.func.id == 'getattr'
+                    and len(m.args) == 2 and not m.keywords and isinstance(m.args[1], ast.Name) and m.args[1].id == v_ and _pure(m.args[0])]
+            if uses and len(uses) == len(gets):
+                class _G(ast.NodeTransformer):
+                    def __init__(self, name):
+                        self.name = name
+
+                    def visit_Call(self, node):
+                        node = self.generic_visit(node)
+                        if isinstance(node.func, ast.Name) and node.func.id == 'getattr' and len(node.args) == 2 and isinstance(node.args[1], ast.Name) \
+                                and node.args[1].id == v_:
+                            return ast.Attribute(value=node.args[0], attr=self.name, ctx=ast.Load())
+                        return node
+                unrolled = []
+                for e in st.iter.elts:
+                    for b_ in st.body:
+                        unrolled.append(_G(e.value).visit(copy.deepcopy(b_)))
+                block[i:i + 1] = unrolled
+                continue
         # N10 / N11 index loops: `for i in range(len(X)): a = X[i]; BODY` -> `for i, a in enumerate(X): BODY`, and
         #   `for i in range(min(len(A), len(B))): a, b = A[i], B[i]; BODY` -> `for i, (a, b) in enumerate(zip(A, B)): BODY`
         #   (X, A, B plain names or attribute chains that the body neither rebinds nor resizes; `i` and the element names not re-assigned)
@@ -670,6 +697,14 @@ def _norm_block(block, fn, in_loop):
                         and not isinstance(nxt.targets[0], ast.Name):
                     block[i:i + 2] = [ast.Assign(targets=nxt.targets, value=st.value, type_comment=None)]
                     continue
+                # … or handed, as the only argument, to a method of a local object the expression does not mention
+                # (`a = Agent(…)` ; `agents.append(a)` -> `agents.append(Agent(…))`)
+                if isinstance(nxt, ast.Expr) and isinstance(nxt.value, ast.Call) and isinstance(nxt.value.func, ast.Attribute) \
+                        and isinstance(nxt.value.func.value, ast.Name) and len(nxt.value.args) == 1 and not nxt.value.keywords \
+                        and isinstance(nxt.value.args[0], ast.Name) and nxt.value.args[0].id == t \
+                        and nxt.value.func.value.id != t and _loads(st.value, nxt.value.func.value.id) == 0:
+                    block[i:i + 2] = [ast.Expr(value=ast.Call(func=nxt.value.func, args=[st.value], keywords=[]))]
+                    continue
                 if isinstance(nxt, ast.Return) and isinstance(nxt.value, ast.Name) and nxt.value.id == t:
                     block[i:i + 2] = [ast.Return(value=st.value)]
                     continue
@@ -727,6 +762,11 @@ def _canon_locals(fn):
              and st.iter.func.id == 'enumerate' and isinstance(st.target, ast.Tuple) and st.target.elts and isinstance(st.target.elts[0], ast.Name)]
     if len(enums) == 1 and 'i' not in bound and _stores(fn, enums[0].target.elts[0].id) == 1:
         ren[enums[0].target.elts[0].id] = 'i'
+    # … and the local that holds the task's History object is called `history`
+    hists = {st.targets[0].id for st in ast.walk(fn) if isinstance(st, ast.Assign) and len(st.targets) == 1 and isinstance(st.targets[0], ast.Name)
+             and isinstance(st.value, ast.Call) and ast.unparse(st.value.func).split('.')[-1] == 'History'}
+    if len(hists) == 1 and 'history' not in bound and _stores(fn, next(iter(hists))) == 1:
+        ren[next(iter(hists))] = 'history'
     if ren:
         for n in ast.walk(fn):
             if isinstance(n, ast.Name) and n.id in ren:
